@@ -31,11 +31,15 @@ type c09Case struct {
 	StepFail bool      `json:"step_fail"`
 	LineNorm bool      `json:"line_norm"`
 	StepAlgs string    `json:"step_algs"` // sha256 | sha512 | both : what the functionaries of the steps recorded
+	DirLinks []string  `json:"dir_links,omitempty"` // symbolic links to directories elsewhere lying in the verification directory (never followed there)
 }
 
 func c09Files(w hx.World) map[string]string {
 	out := map[string]string{}
 	for _, f := range w.Product {
+		if f.Special == "dirlink" {
+			continue // no file: a link to a directory, which the verifier does not follow
+		}
 		out[f.Path] = f.Content
 	}
 	return out
@@ -113,6 +117,9 @@ func c09Gen(t *rapid.T) c09Case {
 		if rapid.Bool().Draw(t, "longlinetamper") {
 			c.DirEdits = append(c.DirEdits, "a:"+p+":tampered behind the long line")
 		}
+	}
+	if rapid.IntRange(0, 3).Draw(t, "dirlinks") == 0 {
+		c.DirLinks = rapid.SliceOfNDistinct(rapid.SampledFrom([]string{"0-docs", "aaa", "sub/0-current", "sub/dir/0-vendor", "zzz-last"}), 1, 3, rapid.ID[string]).Draw(t, "dirlinkpaths")
 	}
 	nEdits := rapid.SampledFrom([]int{0, 0, 0, 1, 1, 2}).Draw(t, "nedits")
 	for i := 0; i < nEdits; i++ {
@@ -378,6 +385,12 @@ func c09Run(c c09Case, r *hx.Rec) error {
 			wf.Special = "exec"
 		}
 		w.Product = append(w.Product, wf)
+	}
+	for _, p := range c.DirLinks {
+		if _, taken := tree[p]; !taken {
+			w.Product = append(w.Product, hx.WFile{Path: p, Special: "dirlink", Content: "documentation"})
+			r.Label("directory-symlink-in-verification-dir")
+		}
 	}
 	if len(w.Product) == 0 {
 		r.Unasserted() // an empty run directory is refused by the run-directory entry point for other reasons
